@@ -226,7 +226,7 @@ def main(argv=None):
     wall_jobs = time.time() - t0
 
     # ---- aggregate
-    agg = {"evals": 0, "keys": set(), "faults": {}, "probes": {}, "stats": {}, "skipped": {}, "status": {}, "samples": [], "timeouts": 0, "harness": [], "steps": 0, "boundaries": 0, "jobs": 0}
+    agg = {"traces": set(), "states": set(), "evals": 0, "keys": set(), "faults": {}, "probes": {}, "stats": {}, "skipped": {}, "status": {}, "samples": [], "timeouts": 0, "harness": [], "steps": 0, "boundaries": 0, "jobs": 0}
     viol = []
     for r in results:
         if r.get("fatal"):
@@ -235,6 +235,8 @@ def main(argv=None):
         agg["jobs"] += 1
         agg["evals"] += r["evals"]
         agg["keys"].update(r["keys"])
+        agg["traces"].update(r.get("traces") or [])
+        agg["states"].update(r.get("states") or [])
         for f in ("faults", "probes", "stats", "skipped", "status"):
             for k, n in r[f].items():
                 agg[f][k] = agg[f].get(k, 0) + n
@@ -310,6 +312,9 @@ def main(argv=None):
             "simulated_time_steps": agg["steps"],
             "simulated_time_note": "VSG has no timers; the only clock is the count of scheduler actions and intercepted I/O operations executed",
             "crash_points_checked": agg["boundaries"],
+            "distinct_schedule_traces": len(agg["traces"]),
+            "distinct_sandbox_states": len(agg["states"]),
+            "distinctness_measure": "schedule trace = the full recorded decision list of a pool run (hash); sandbox state = the map path -> (content digest, mode) after an intercepted operation (hash)",
             "fault_kinds_fired": agg["faults"],
             "probes_hit": agg["probes"],
             "run_status_counts": agg["status"],
